@@ -10,7 +10,7 @@
 (* sequence of d_k elements of level k-1 (coefficient of X^0 first).        *)
 (* Nothing here is taken from the implementation.                           *)
 (***************************************************************************)
-EXTENDS Num
+EXTENDS Num, SequencesExt
 
 PrimeF(p) == [p |-> p, lv |-> <<>>]
 
@@ -38,7 +38,7 @@ FpLegendre(p, a) == IF NIsZero(a) THEN 0
 
 ----------------------------------------------------------------------------
 RECURSIVE TZero(_, _), TOne(_, _), TIsZero(_, _, _), TAdd(_, _, _, _), TSub(_, _, _, _),
-          TNeg(_, _, _), TMul(_, _, _, _), TInv(_, _, _), TNormDown(_, _, _),
+          TNeg(_, _, _), TMul(_, _, _, _), TMulGen(_, _, _, _), TInv(_, _, _), TNormDown(_, _, _),
           TFromPrime(_, _, _), TFlatten(_, _, _), TIsElem(_, _, _), TMulPrime(_, _, _, _)
 
 TZero(F, k) == IF k = 0 THEN NZero ELSE Mk(Deg(F, k), LAMBDA i : TZero(F, k-1))
@@ -65,7 +65,9 @@ TConv(F, k, a, b, m, i) ==
     IF i > d - 1 \/ i > m THEN TZero(F, k-1)
     ELSE IF m - i > d - 1 THEN TConv(F, k, a, b, m, i + 1)
     ELSE TAdd(F, k-1, TMul(F, k-1, a[i+1], b[m-i+1]), TConv(F, k, a, b, m, i + 1))
-TMul(F, k, a, b) ==
+\* The generic schoolbook product (any degree) is TMulGen; for degrees 2 and 3 the same sums
+\* are written out (TLC evaluates them several times faster); MC_Field checks TMul = TMulGen.
+TMulGen(F, k, a, b) ==
     IF k = 0 THEN FpMul(F.p, a, b)
     ELSE LET d == Deg(F, k)
              c(m) == TConv(F, k, a, b, m, 0)      \* coefficient of X^m, m = 0 .. 2d-2
@@ -73,6 +75,20 @@ TMul(F, k, a, b) ==
                  IF m - 1 + d <= 2*d - 2
                  THEN TAdd(F, k-1, c(m-1), TMul(F, k-1, NR(F, k), c(m-1+d)))
                  ELSE c(m-1))
+TMul(F, k, a, b) ==
+    IF k = 0 THEN FpMul(F.p, a, b)
+    ELSE LET M(x, y) == TMul(F, k-1, x, y)
+             A(x, y) == TAdd(F, k-1, x, y)
+             nr == NR(F, k)
+         IN  IF Deg(F, k) = 2
+             THEN \* (a1 + a2 X)(b1 + b2 X) = a1 b1 + nr a2 b2 + (a1 b2 + a2 b1) X
+                  <<A(M(a[1], b[1]), M(nr, M(a[2], b[2]))),
+                    A(M(a[1], b[2]), M(a[2], b[1]))>>
+             ELSE IF Deg(F, k) = 3
+             THEN <<A(M(a[1], b[1]), M(nr, A(M(a[2], b[3]), M(a[3], b[2])))),
+                    A(A(M(a[1], b[2]), M(a[2], b[1])), M(nr, M(a[3], b[3]))),
+                    A(A(M(a[1], b[3]), M(a[2], b[2])), M(a[3], b[1]))>>
+             ELSE TMulGen(F, k, a, b)
 TSqr(F, k, a) == TMul(F, k, a, a)
 
 \* multiply an element of level k by an element of the prime field / of level j <= k
@@ -117,19 +133,20 @@ TInv(F, k, a) ==
                       t2 == S(M(a[2], a[2]), M(a[1], a[3]))
                   IN  <<M(t0, ni), M(t1, ni), M(t2, ni)>>
 
-\* a^e for a number e >= 0: square-and-multiply from the top bit
-RECURSIVE TPowAux(_, _, _, _, _, _)
-TPowAux(F, k, a, e, i, acc) ==
-    IF i < 0 THEN acc
-    ELSE LET sq == TSqr(F, k, acc)
-         IN  TPowAux(F, k, a, e, i - 1, IF NBit(e, i) = 1 THEN TMul(F, k, sq, a) ELSE sq)
-TPow(F, k, a, e) == IF k = 0 THEN FpPow(F.p, a, e)
-                    ELSE TPowAux(F, k, a, e, NBitLen(e) - 1, TOne(F, k))
+\* a^e for a number e >= 0: square-and-multiply from the top bit.  Written as a fold (not as a
+\* recursive operator): TLC's evaluation context grows with the recursion depth and lookups
+\* walk it linearly, which makes 400-level recursions quadratic; FoldLeft iterates in Java.
+TPow(F, k, a, e) ==
+    IF k = 0 THEN FpPow(F.p, a, e)
+    ELSE FoldLeft(LAMBDA acc, i : LET sq == TSqr(F, k, acc)
+                                  IN  IF NBit(e, i) = 1 THEN TMul(F, k, sq, a) ELSE sq,
+                  TOne(F, k), DownTo(NBitLen(e) - 1, 0))
 
-\* Frobenius: n-fold p-th power (DEFINITION; the implementation uses coefficient tables)
-RECURSIVE TFrob(_, _, _, _)
-TFrob(F, k, a, n) == IF n = 0 THEN a ELSE TFrob(F, k, TPow(F, k, a, F.p), n - 1)
-
+\* Frobenius: x |-> x^(p^n) (DEFINITION; the implementation uses coefficient tables).
+\* TFrobRaw applies the p-th power n times; since x^(p^deg) = x in a field with p^deg elements
+\* (checked by TLC on every toy tower, axiom FrobPeriod in MC_Field) n is reduced modulo deg.
+RECURSIVE TFrobRaw(_, _, _, _)
+TFrobRaw(F, k, a, n) == IF n = 0 THEN a ELSE TFrobRaw(F, k, TPow(F, k, a, F.p), n - 1)
 \* absolute extension degree of level k and coordinates over the prime field, in the
 \* order of Field::to_base_prime_field_elements (c0's coordinates first)
 RECURSIVE TExtDeg(_, _)
@@ -154,9 +171,16 @@ RECURSIVE NPowInt(_, _)
 NPowInt(a, n) == IF n = 0 THEN NOne ELSE NMul(a, NPowInt(a, n - 1))
 TOrder(F, k) == NPowInt(F.p, TExtDeg(F, k))
 
-\* squareness by Euler's criterion in F_k (|F_k| odd)
-TIsSquare(F, k, a) == \/ TIsZero(F, k, a)
-                      \/ TPow(F, k, a, NHalf(NSub(TOrder(F, k), NOne))) = TOne(F, k)
+\* squareness: Euler's criterion in F_k,  a^((q-1)/2) = 1 ...
+TIsSquareEuler(F, k, a) == \/ TIsZero(F, k, a)
+                           \/ TPow(F, k, a, NHalf(NSub(TOrder(F, k), NOne))) = TOne(F, k)
+\* ... evaluated by descending with the relative norm: a^((q^d-1)/2) = N(a)^((q-1)/2), so a is a
+\* square in F_k iff its norm is a square in F_{k-1} (MC_Field checks both against \E y : y^2 = a)
+RECURSIVE TIsSquare(_, _, _)
+TIsSquare(F, k, a) == IF k = 0 THEN FpLegendre(F.p, a) >= 0
+                      ELSE TIsSquare(F, k-1, TNormDown(F, k, a))
+
+TFrob(F, k, a, n) == TFrobRaw(F, k, a, n % TExtDeg(F, k))
 
 \* comparison: the implementation documents "lexicographic, highest coefficient first"
 RECURSIVE TCmp(_, _, _, _)
